@@ -1,7 +1,8 @@
 ------------------------------ MODULE MC_CrossSdk ------------------------------
 (***************************************************************************************************)
 (* M phase of C09: design-level model checking of the reference semantics itself (no repo code).   *)
-(* TLC visits one state per instance and per mutated document of every family and checks           *)
+(* TLC visits one state per instance and per mutated document of every family (as enumerated by    *)
+(* CrossSdkGen) and checks                                                                         *)
 (*   RoundTrip        FromJsonable(ToJsonable(x)) accepts and yields x  (the wire format is a      *)
 (*                    bijection on its image; modelType dispatch picks the concrete class)         *)
 (*   WireShape        ToJsonable(x) is an object whose keys are distinct wire names                *)
@@ -13,28 +14,33 @@
 (*   Base64Inverse    B64Dec inverts Base64 on all byte strings of the alphabets                   *)
 (*   SupersetsWell    declared superset_of relations hold                                          *)
 (***************************************************************************************************)
-EXTENDS CrossSdkModels, IOUtils
+EXTENDS CrossSdkModels, Json, IOUtils
 
-Tier == IOEnv.VERIF_TIER
-Fams == Families(Tier)
+\* The cases are the ones CrossSdkGen wrote (G runs first).  They are read back from the file because TLC
+\* pre-computes and caches only constant definitions that involve no RECURSIVE operator: a definition of the
+\* case sequence inside this module would be re-evaluated at every state.
+G == JsonDeserialize(IOEnv.VERIF_CASES)
+Fs == G.families
+ModelNamed(n) == G.models[CHOOSE a \in 1..Len(G.models) : G.models[a].model.name = n].model
 
-VARIABLES kind, f, c
-vars == <<kind, f, c>>
-
+\* thorough tier: every Stride-th instance of the large families (the design check involves no repo code; the
+\* quick tier visits all of its, far fewer, instances)
+Stride == IF IOEnv.VERIF_TIER = "quick" THEN 1 ELSE 4
+VARIABLES fi, kind, ci
+vars == <<fi, kind, ci>>
 Init ==
-  \E fi \in 1..Len(Fams) :
-     /\ f = Fams[fi].name
-     /\ \/ kind = "inst" /\ c \in Fams[fi].instances
-        \/ /\ kind = "doc"
-           /\ \E b \in 1..Len(Fams[fi].docBases) :
-                 LET j == ToJsonable(ModelByName(Fams[fi].model), Fams[fi].docBases[b])
-                     ms == Mutants(j, Fams[fi].docDepth) IN
-                 c \in {[mut |-> "none", at |-> "obj", loc |-> <<>>, doc |-> j, base |-> b]}
-                       \cup {[mut |-> ms[q].mut, at |-> ms[q].at, loc |-> ms[q].loc, doc |-> ms[q].doc, base |-> b] : q \in 1..Len(ms)}
+  \E a \in 1..Len(Fs) :
+     /\ fi = a
+     /\ \/ kind = "inst" /\ ci \in {n \in 1..Len(Fs[a].instances) : n % Stride = 0 \/ Len(Fs[a].instances) < 100}
+        \/ kind = "doc" /\ ci \in 1..Len(Fs[a].docs)
 Next == UNCHANGED vars
 
-M == ModelByName(FamilyModel(f))
-Root == FamilyRoot(f)
+M == ModelNamed(Fs[fi].model)
+Root == Fs[fi].root
+c == IF kind = "inst" THEN Fs[fi].instances[ci].x ELSE Fs[fi].docs[ci]
+
+\* the spec's own meta-models and the ones read back are the same values
+ModelsFaithful == \A a \in 1..Len(G.models) : G.models[a].model = ModelByName(G.models[a].model.name)
 
 RoundTrip ==
   kind = "inst" =>
@@ -92,5 +98,5 @@ PatternFacts ==
   /\ FullMatch(PatCode, s_ac_lf) /\ ~FullMatch(PatCode, <<97, 99, 10, 10>>) /\ ~FullMatch(PatCode, s_aec)
   /\ FullMatch(PatAstral, s_astral) /\ FullMatch(PatAstral, <<97, 128512>>) /\ ~FullMatch(PatAstral, <<97, 98, 99>>) /\ ~FullMatch(PatAstral, s_empty)
   /\ FullMatch(PatNotX, s_empty) /\ FullMatch(PatNotX, s_astral) /\ ~FullMatch(PatNotX, s_x) /\ ~FullMatch(PatNotX, s_ab)
-ASSUME Base64Inverse /\ NotCanonical /\ SupersetsWell /\ IntOrder /\ PatternFacts
+ASSUME Base64Inverse /\ NotCanonical /\ SupersetsWell /\ IntOrder /\ PatternFacts /\ ModelsFaithful
 =============================================================================
